@@ -39,7 +39,13 @@ RULE = (
     "with <=3 fields, scripted ==-classes / hash codes / key function on {0,1,2}, 1-2 instances and histories of <=9 "
     "operations (hash / copy / deepcopy / pickle protocols 2-5 / evolve / field write), 30% of them scripted as hash, derive, "
     "write to the derived instance, hash both; non-trivial = a hash operation on a class with an attrs-generated hash, or a "
-    "table row that is not the default row (attr.s, nothing passed, no base); distinct = distinct JSON case"
+    "table row that is not the default row (attr.s, nothing passed, no base); distinct = distinct JSON case. Harness-only "
+    "variation the model is independent of: the exception root (Exception, BaseException, KeyboardInterrupt, SystemExit, "
+    "GeneratorExit, ValueError) of every exception-rooted row and of 12% of the random chains (whose instances are hashed, "
+    "evolved and written, not copied); field names written private (_x), dunder-like (__x, mangled) or with an explicit "
+    "alias=, and the aliases of two fields of a class swapped (35% of the fields of random chains and pair blocks); pickle "
+    "protocols 0-5; getstate_setstate in {unset, None, True, False} on 30% of the random classes and =True on a second copy "
+    "of every hand-written chain (dict classes with the generated state methods, mixed slotted/dict chains)"
 )
 ASSUMPTIONS = [
     "CPython facts modelled as small trusted functions and diff-tested here: `__hash__ = None` is inserted for a body that "
@@ -52,10 +58,14 @@ ASSUMPTIONS = [
     "module and qualified names (hence the same type salt)",
     "histories contain no field write after the first hash() of the same instance (cache_hash's documented precondition); "
     "writes to a shallow copy of a hashed instance are allowed and are K5",
-    "copy/deepcopy/pickle are exercised only on chains whose attrs classes are all slotted or all dict classes (mixed chains "
-    "lose fields: K4 of C10); chains in which a frozen dict class stores an inherited slot field in __dict__ (K3 of "
-    "C01/C08/C10) are excluded by wf, because there the fields, not the hash, are unreadable",
-    "field names are distinct along a chain, every field is init=True without default; instances of exception classes are not hashed",
+    "copy/deepcopy/pickle are exercised wherever the state methods that resolve are the ones generated for the class whose "
+    "__init__ runs (slotted classes, dict classes with getstate_setstate=True or below a class with a generated pair) or no "
+    "generated pair exists and no class is slotted (default __dict__ protocol); not where getstate_setstate=False leaves a "
+    "base's pair or a slotted class without one (C10's K11), and not on exception instances (BaseException's own reduce)",
+    "chains in which a frozen dict attr.s class stores an inherited slot field in __dict__ (K3 of C01/C08/C10, legacy "
+    "collection only) are excluded by wf, because there the fields, not the hash, are unreadable",
+    "field names are distinct along a chain, every field is init=True without default; attribute names and init aliases are "
+    "read back from attr.fields() of the built class",
 ]
 
 FLAGS = ["unset", "pyNone", "t", "f"]
@@ -108,25 +118,31 @@ def _kw(c):
     kw = {}
     for json_name, py_name in (("eq", "eq"), ("cmp", "cmp"), ("hash", "hash"), ("unsafeHash", "unsafe_hash"),
                                ("init", "init"), ("frozen", "frozen"), ("slots", "slots"),
-                               ("autoDetect", "auto_detect"), ("autoExc", "auto_exc"), ("cacheHash", "cache_hash")):
+                               ("autoDetect", "auto_detect"), ("autoExc", "auto_exc"), ("cacheHash", "cache_hash"),
+                               ("getstateSetstate", "getstate_setstate")):
         v = c[json_name]
         if v != "unset":
             kw[py_name] = _PY[v]
     return kw
 
 
-def _class_src(k, c, root_exc):
-    base = f"C{k - 1}" if k else ("Exception" if root_exc else "object")
+ROOTS = ["Exception", "BaseException", "KeyboardInterrupt", "SystemExit", "GeneratorExit", "ValueError"]
+
+
+def _class_src(k, c, root):
+    base = f"C{k - 1}" if k else root
     lines = [f"class C{k}({base}):"]
     for f in c["fields"]:
         args = []
+        if f.get("alias"):
+            args.append(f"alias={f['alias']!r}")
         if f["eq"] == "f":
             args.append("eq=False")
         elif f["eq"] == "key":
             args.append("eq=KEY")
         if f["hash"] is not None:
             args.append(f"hash={f['hash']}")
-        lines.append(f"    {f['name']} = attr.ib({', '.join(args)})")
+        lines.append(f"    {f.get('py', f['name'])} = attr.ib({', '.join(args)})")
     oh = c["ownHash"]
     if oh == "func":
         lines += ["    def __hash__(self):", "        return 7"]
@@ -162,7 +178,7 @@ def _kind(cls, orig):
     return "other"
 
 
-def _build_chain(exc_base, chain, register):
+def _build_chain(root, chain, register):
     """returns (kinds, classes or None). classes is None when a definition failed."""
     ns = {"__name__": _MOD, "attr": attr, "attrs": attrs, "KEY": KEY}
     mod = None
@@ -176,7 +192,7 @@ def _build_chain(exc_base, chain, register):
         sys.modules[_MOD] = mod
     try:
         for k, c in enumerate(chain):
-            exec(_class_src(k, c, exc_base), ns)  # noqa: S102
+            exec(_class_src(k, c, root), ns)  # noqa: S102
             cls = ns[f"C{k}"]
             orig = cls.__dict__.get("__hash__")
             if c["api"] != "plain":
@@ -204,25 +220,33 @@ def _build_chain(exc_base, chain, register):
     return kinds, classes, mod
 
 
-def _chain_key(exc_base, chain):
-    return repr((exc_base, [sorted((k, repr(v)) for k, v in c.items()) for c in chain]))
+def _root(case):
+    if not case["excBase"]:
+        return "object"
+    r = case.get("cfg", {}).get("root", "Exception")
+    return r if r in ROOTS else "Exception"
+
+
+def _chain_key(root, chain):
+    return repr((root, [sorted((k, repr(v)) for k, v in c.items()) for c in chain]))
 
 
 def build(case):
-    key = _chain_key(case["excBase"], case["chain"])
+    root = _root(case)
+    key = _chain_key(root, case["chain"])
     need_twin = bool(case["insts"] or case["ops"])
     got = _CACHE.get(key)
     if got is None:
         if len(_CACHE) > 1500:
             _CACHE.clear()
             common.purge_linecache()
-        kinds, classes, mod = _build_chain(case["excBase"], case["chain"], register=True)
+        kinds, classes, mod = _build_chain(root, case["chain"], register=True)
         got = [kinds, classes, None, mod]
         _CACHE[key] = got
     if need_twin and got[1] is not None and got[2] is None:
         # the same chain without cache_hash (same module and qualified names, hence the same type salt)
         tchain = [dict(c, cacheHash="unset") for c in case["chain"]]
-        _, got[2], _ = _build_chain(case["excBase"], tchain, register=False)
+        _, got[2], _ = _build_chain(root, tchain, register=False)
     return got
 
 
@@ -241,8 +265,13 @@ def _plain(out):
     return {"out": out, "vals": [], "sameUncached": False, "eqAlt": False, "hashAlt": False, "nKey": 0, "nVal": 0}
 
 
-def _field_names(case):
-    return [f["name"] for c in case["chain"] if c["api"] != "plain" for f in c["fields"]]
+def _field_names(C):
+    """(attribute names, __init__ parameter names) of the class, as attrs itself reports them"""
+    try:
+        fs = attr.fields(C)
+    except Exception:  # noqa: BLE001  -- no attrs class in the chain
+        return [], []
+    return [a.name for a in fs], [a.alias for a in fs]
 
 
 def _hash_op(C, T, names, x, alt):
@@ -295,7 +324,7 @@ def observe(case):
     proto = case.get("cfg", {}).get("proto", pickle.HIGHEST_PROTOCOL)
     try:
         C, T = classes[-1], (twin[-1] if twin else None)
-        names = _field_names(case)
+        names, aliases = _field_names(C)
         results = []
         try:
             insts = [C(*[V(v) for v in vals]) for vals in case["insts"]]
@@ -322,7 +351,7 @@ def observe(case):
                     elif name == "pickle":
                         y = pickle.loads(pickle.dumps(x, proto))
                     else:
-                        y = attr.evolve(x, **{names[f]: V(v) for f, v in arg["changes"]})
+                        y = attr.evolve(x, **{aliases[f]: V(v) for f, v in arg["changes"]})
                     insts.append(y)
                     results.append(_plain("ok"))
                 except BaseException as e:  # noqa: BLE001
@@ -350,7 +379,7 @@ def observe(case):
 def cls_spec(api="attrS", **kw):
     c = {"api": api, "eq": "unset", "cmp": "unset", "hash": "unset", "unsafeHash": "unset", "init": "unset",
          "frozen": "unset", "slots": "unset", "autoDetect": "unset", "autoExc": "unset", "cacheHash": "unset",
-         "ownHash": "no", "ownEq": False, "ownNe": False, "ownInit": False, "fields": []}
+         "getstateSetstate": "unset", "ownHash": "no", "ownEq": False, "ownNe": False, "ownInit": False, "fields": []}
     c.update(kw)
     return c
 
@@ -360,8 +389,13 @@ def mk_case(chain, exc_base=False, insts=(), ops=(), eqc=(0, 1, 2), hcode=(0, 1,
             "insts": [list(v) for v in insts], "ops": list(ops), "cfg": cfg}
 
 
-def fld(name, eq="t", hash=None):  # noqa: A002
-    return {"name": name, "eq": eq, "hash": hash}
+def fld(name, eq="t", hash=None, py=None, alias=None):  # noqa: A002
+    f = {"name": name, "eq": eq, "hash": hash}
+    if py is not None:
+        f["py"] = py        # the name as written in the class body (harness-only; `name` stays the logical name)
+    if alias is not None:
+        f["alias"] = alias  # explicit alias= (harness-only)
+    return f
 
 
 # Python mirror of the keyword defaults, used by generators only (to keep generated cases well-formed).
@@ -395,9 +429,29 @@ def _slots_eff(c):
     return bool(_eff(c, "slots", False, True))
 
 
-def _uniform(chain):
-    s = [_slots_eff(c) for c in chain if c["api"] != "plain"]
-    return all(s) or not any(s)
+def _copy_mode(chain):
+    """Python mirror of Model.layoutOf.copyMode (generator-side only)"""
+    inh = False
+    flags = []
+    for c in chain:
+        if c["api"] == "plain":
+            flags.append(False)
+            continue
+        gs = c["getstateSetstate"]
+        h = _PY[gs] if gs in ("t", "f") else (_slots_eff(c) or inh)
+        flags.append(h)
+        inh = inh or h
+    attrs_idx = [k for k, c in enumerate(chain) if c["api"] != "plain"]
+    if attrs_idx and flags[attrs_idx[-1]]:
+        return "state"
+    if any(flags) or any(_slots_eff(chain[k]) for k in attrs_idx):
+        return "unsupported"
+    return "dict"
+
+
+def _uniform(chain, exc_base=False):
+    """may copy / deepcopy / pickle operations be used on instances of this chain"""
+    return not exc_base and _copy_mode(chain) != "unsupported"
 
 
 def _k3_shape(chain):
@@ -422,7 +476,7 @@ def _k3_shape(chain):
             return False
         p = below[0]
         return not (p[0] and p[2]) and any(n[0] and n[2] and n[3] for n in below)
-    return any((not x[0]) and y[0] and y[2] and y[3] for x, y in zip(below, below[1:]))
+    return False
 
 
 def _frozen_leaf(chain):
@@ -478,7 +532,9 @@ def _table_case(row, rng, vary):
         chain = [rng.choice(_BASES)()] + chain
     if _is_legacy_or_mixed(c):
         return None
-    return mk_case(chain, exc_base=exc_base)
+    if exc_base:
+        return mk_case(chain, exc_base=True, root=rng.choice(ROOTS))
+    return mk_case(chain)
 
 
 _BASES = [
@@ -533,6 +589,8 @@ def _rand_inst_cls(rng, root):
         c["hash"] = rng.choice(["t", "pyNone"])
     if rng.random() < 0.5:
         c["cacheHash"] = "t"
+    if rng.random() < 0.3:
+        c["getstateSetstate"] = rng.choice(["t", "t", "f", "pyNone"])
     if rng.random() < 0.05:
         c["ownEq"] = True
     return c
@@ -555,9 +613,9 @@ def _alt_for(rng, nf):
     return [rng.randrange(3) for _ in range(nf)]
 
 
-def _scripted_history(rng, chain, nf, n_insts):
+def _scripted_history(rng, chain, nf, n_insts, copy_ok):
     """hash, derive a new instance, (write to it), hash both again: where stale or lost caches show"""
-    uniform = _uniform(chain)
+    uniform = copy_ok
     frozen = _frozen_leaf(chain)
     i = rng.randrange(n_insts)
     j = n_insts
@@ -578,10 +636,12 @@ def _scripted_history(rng, chain, nf, n_insts):
     return ops
 
 
-def _rand_history(rng, chain, nf, n_insts, max_ops):
+def _rand_history(rng, chain, nf, n_insts, max_ops, copy_ok=None):
+    if copy_ok is None:
+        copy_ok = _uniform(chain)
     if rng.random() < 0.3:
-        return _scripted_history(rng, chain, nf, n_insts)
-    uniform = _uniform(chain)
+        return _scripted_history(rng, chain, nf, n_insts, copy_ok)
+    uniform = copy_ok
     frozen = _frozen_leaf(chain)
     ops = []
     n = n_insts
@@ -609,13 +669,16 @@ def _rand_history(rng, chain, nf, n_insts, max_ops):
     return ops
 
 
-def _inst_cases(rng, chain, count=1, max_ops=8, pairs=None):
-    """cases over one chain (built once): `count` random histories, or one pair block"""
+def _inst_cases(rng, chain, count=1, max_ops=8, pairs=None, root=None):
+    """cases over one chain (built once): `count` random histories, or one pair block; `root` names an
+    exception class the root class derives from"""
     nf = sum(len(c["fields"]) for c in chain if c["api"] != "plain")
     if any(_is_legacy_or_mixed(c) for c in chain) or _k3_shape(chain):
         return
+    base_cfg = {"root": root} if root else {}
+    exc = bool(root)
     eqc, hcode, key_map = _rand_domain(rng)
-    case = mk_case(chain, eqc=eqc, hcode=hcode, key_map=key_map)
+    case = mk_case(chain, exc_base=exc, eqc=eqc, hcode=hcode, key_map=key_map, **base_cfg)
     kinds, classes, _, _ = build(dict(case, insts=[[0]]))
     if classes is None:
         yield case  # a definition error: still a row of the table
@@ -626,15 +689,43 @@ def _inst_cases(rng, chain, count=1, max_ops=8, pairs=None):
         case["ops"] = [{"hash": {"i": 0, "alt": list(a)}} for a in alts]
         yield case
         return
+    copy_ok = _uniform(chain, exc)
     for _ in range(count):
         eqc, hcode, key_map = _rand_domain(rng)
-        case = mk_case(chain, eqc=eqc, hcode=hcode, key_map=key_map)
+        case = mk_case(chain, exc_base=exc, eqc=eqc, hcode=hcode, key_map=key_map, **base_cfg)
         n_insts = rng.choice([1, 1, 2])
         case["insts"] = [[rng.randrange(3) for _ in range(nf)] for _ in range(n_insts)]
-        case["ops"] = _rand_history(rng, chain, nf, n_insts, max_ops)
-        if rng.random() < 0.3:
-            case["cfg"] = {"proto": rng.choice([2, 3, 4, 5])}
+        case["ops"] = _rand_history(rng, chain, nf, n_insts, max_ops, copy_ok)
+        if rng.random() < 0.4:
+            case["cfg"] = dict(base_cfg, proto=rng.choice([0, 1, 2, 3, 4, 5]))
         yield case
+
+
+def _dress_names(rng, chain, p=0.35):
+    """harness-only: write some fields under a private / dunder-like name or with an explicit alias, and swap
+    the aliases of two fields of one class -- the attribute name and the __init__ parameter name then differ"""
+    for c in chain:
+        fs = c["fields"]
+        plain = []
+        for f in fs:
+            f.pop("py", None)
+            f.pop("alias", None)
+            r = rng.random()
+            if r < p * 0.4:
+                f["py"] = "_" + f["name"]
+            elif r < p * 0.6:
+                f["py"] = "__" + f["name"]
+            elif r < p * 0.8:
+                f["alias"] = "x_" + f["name"]
+            elif r < p:
+                f["py"] = "_" + f["name"]
+                f["alias"] = "y_" + f["name"]
+            else:
+                plain.append(f)
+        if len(plain) >= 2 and rng.random() < p:
+            f, g = rng.sample(plain, 2)
+            f["alias"], g["alias"] = g["name"], f["name"]
+    return chain
 
 
 def _rand_chain(rng):
@@ -653,7 +744,7 @@ def _rand_chain(rng):
         for f in c["fields"]:
             f["name"] = FIELD_NAMES[order]
             order += 1
-    return chain
+    return _dress_names(rng, chain)
 
 
 def _templates():
@@ -717,8 +808,12 @@ def gen_cases(tier, rng):
             yield c
     # ---- templates with random histories
     for chain in _templates():
-        yield from _inst_cases(rng, [dict(k, fields=[dict(f) for f in k["fields"]]) for k in chain],
-                               count=3 if quick else 40)
+        for gs in ("unset", "t"):
+            ch = [dict(k, fields=[dict(f) for f in k["fields"]]) for k in chain]
+            if gs == "t":
+                # the generated __getstate__/__setstate__ also on dict classes
+                ch = [dict(k, getstateSetstate="t") if k["api"] != "plain" else k for k in ch]
+            yield from _inst_cases(rng, _dress_names(rng, ch, p=0.25), count=2 if quick else 20)
     # ---- instance pairs
     if quick:
         blocks = list(_pair_block(rng, 1))
@@ -727,10 +822,11 @@ def gen_cases(tier, rng):
     else:
         blocks = _pair_block(rng, 2)
     for chain, pairs in blocks:
-        yield from _inst_cases(rng, chain, pairs=pairs)
+        yield from _inst_cases(rng, _dress_names(rng, chain), pairs=pairs)
     # ---- random chains and histories
     for _ in range(3800 if quick else 60000):
-        yield from _inst_cases(rng, _rand_chain(rng), count=4 if quick else 8)
+        root = rng.choice(ROOTS) if rng.random() < 0.12 else None
+        yield from _inst_cases(rng, _rand_chain(rng), count=4 if quick else 8, root=root)
 
 
 # ----------------------------------------------------------------------------------------------- reporting
@@ -784,6 +880,12 @@ def shrink(case):
                 c2 = dict(c, **{key: v})
                 if not _is_legacy_or_mixed(c2):
                     yield dict(case, chain=case["chain"][:k] + [c2] + case["chain"][k + 1:])
+    for k, c in enumerate(case["chain"]):
+        if any("py" in f or "alias" in f for f in c["fields"]):
+            c2 = dict(c, fields=[{kk: v for kk, v in f.items() if kk not in ("py", "alias")} for f in c["fields"]])
+            yield dict(case, chain=case["chain"][:k] + [c2] + case["chain"][k + 1:])
+    if case["excBase"] and case.get("cfg", {}).get("root", "Exception") != "Exception":
+        yield dict(case, cfg=dict(case.get("cfg", {}), root="Exception"))
     if not case["ops"] and not case["insts"] and len(case["chain"]) > 1 and not case["chain"][0]["fields"]:
         yield dict(case, chain=case["chain"][1:])
     for key, v in (("eqc", [0, 1, 2]), ("hcode", [0, 1, 2]), ("keyMap", [0, 1, 2])):
@@ -796,13 +898,13 @@ def neighbours(case, rng):
     for k, c in enumerate(chain):
         if c["api"] == "plain":
             continue
-        for key in ("eq", "unsafeHash", "hash", "frozen", "slots", "autoDetect", "cacheHash", "autoExc"):
+        for key in ("eq", "unsafeHash", "hash", "frozen", "slots", "autoDetect", "cacheHash", "autoExc", "getstateSetstate"):
             for v in (FLAGS if key in ("eq", "unsafeHash", "hash") else ["unset", "t", "f"]):
                 if c[key] != v:
                     c2 = dict(c, **{key: v})
                     if not _is_legacy_or_mixed(c2):
                         cand = dict(case, chain=chain[:k] + [c2] + chain[k + 1:])
-                        if case["ops"] and not _uniform(cand["chain"]) and any(
+                        if case["ops"] and not _uniform(cand["chain"], case["excBase"]) and any(
                                 next(iter(op)) in ("copy", "deepcopy", "pickle") for op in case["ops"]):
                             continue
                         yield cand
@@ -811,7 +913,7 @@ def neighbours(case, rng):
         for _ in range(40):
             c2 = dict(case)
             c2["insts"] = [[rng.randrange(3) for _ in range(nf)] for _ in case["insts"]]
-            c2["ops"] = _rand_history(rng, chain, nf, len(c2["insts"]), 8)
+            c2["ops"] = _rand_history(rng, chain, nf, len(c2["insts"]), 8, _uniform(chain, case["excBase"]))
             c2["eqc"], c2["hcode"], c2["keyMap"] = _rand_domain(rng)
             yield c2
     yield from shrink(case)
